@@ -36,6 +36,10 @@ enum Case {
     Widen { height: u64, nth: usize, width: u8 },
     /// a consistent chain of 120 blocks, one per blk file, under RLIMIT_NOFILE = 40: must pass like any consistent chain
     ManyFiles,
+    /// a consistent chain whose records carry a length field that is not the block's length (0: one short, 1: 81, 2: zero,
+    /// 3: 1000 too long - more than is left in the file behind the last block, 4: 0xffffffff, 5: a different one per height);
+    /// merkle roots, prev-hashes and the index are intact, so it must pass
+    Prefix { coin: &'static str, variant: u8, start: Option<u64> },
     /// as Flip, on a chain of merged-mined blocks (header, AuxPoW section, transactions) of namecoin / dogecoin
     AuxFlip { coin: &'static str, height: u64, region: &'static str, which: u8 },
 }
@@ -238,6 +242,15 @@ pub fn run() -> Report {
         cases.push(Case::WrongGenesis { coin: c.name });
     }
     cases.push(Case::ManyFiles);
+    for cn in ["bitcoin", "litecoin", "namecoin", "dogecoin"] {
+        for variant in 0..6u8 {
+            for start in [None, Some(2u64)] {
+                if cn == "bitcoin" || start.is_none() {
+                    cases.push(Case::Prefix { coin: cn, variant, start });
+                }
+            }
+        }
+    }
     for cn in ["namecoin", "dogecoin"] {
         for h in 1..3u64 {
             for region in ["prev", "merkle", "tx", "txcount"] {
@@ -268,7 +281,7 @@ pub fn run() -> Report {
             cases.push(Case::Multi { kinds, start: Some(3) });
         }
     }
-    rep.rule = "must pass: genesis,B(k),B(1) for k in 1..17,31,32,33,64,65 (every merkle-tree shape with an odd level up to depth 6) on bitcoin, k in {1,2,3,5} x --start {0,1,2} on all 8 coins, AuxPoW chains, one transaction with 252..65 536 inputs / outputs or script lengths up to 1 000 000 (legacy and segwit form), sparse indexes at heights up to 2^40 with --start (pass, and fail with a flipped prev field); must fail at that height: every single-bit flip of prev-hash field, merkle field, transaction count and tx bytes of every block of 4-block chains with 1/2/3 txs per block, prev-field flips of the first processed block under --start, block swaps, wrong block 0 for 8 coins; bit flips in prev / merkle / transaction count / transaction bytes of merged-mined (AuxPoW) blocks of namecoin and dogecoin; all 4^4 combinations of {intact, resealed, prev-field rewritten to the stored predecessor's hash, both} over heights 1..4 (x --start) judged by the statement's rule; every CompactSize inside a transaction re-encoded in a wider form with the same value (the txid covers the bytes); (fail at the first processed height whose prev field is not the indexed hash of the preceding height, else pass); non-trivial = distinct case (pass cases: exit 0 with model-equal output; fail cases: corrupted byte inside the processed range)".into();
+    rep.rule = "must pass: genesis,B(k),B(1) for k in 1..17,31,32,33,64,65 (every merkle-tree shape with an odd level up to depth 6) on bitcoin, k in {1,2,3,5} x --start {0,1,2} on all 8 coins, AuxPoW chains, records whose length field is one short / 81 / 0 / 1000 too long / 0xffffffff (4 coins, merged-mined blocks included), one transaction with 252..65 536 inputs / outputs or script lengths up to 1 000 000 (legacy and segwit form), sparse indexes at heights up to 2^40 with --start (pass, and fail with a flipped prev field); must fail at that height: every single-bit flip of prev-hash field, merkle field, transaction count and tx bytes of every block of 4-block chains with 1/2/3 txs per block, prev-field flips of the first processed block under --start, block swaps, wrong block 0 for 8 coins; bit flips in prev / merkle / transaction count / transaction bytes of merged-mined (AuxPoW) blocks of namecoin and dogecoin; all 4^4 combinations of {intact, resealed, prev-field rewritten to the stored predecessor's hash, both} over heights 1..4 (x --start) judged by the statement's rule; every CompactSize inside a transaction re-encoded in a wider form with the same value (the txid covers the bytes); (fail at the first processed height whose prev field is not the indexed hash of the preceding height, else pass); non-trivial = distinct case (pass cases: exit 0 with model-equal output; fail cases: corrupted byte inside the processed range)".into();
     rep.bound = json!({"cases": cases.len(), "flip_chains": "4 blocks x {1,2,3} txs", "flip_density": "every bit", "txs_per_block": if thorough { "1,2,3,4,5,8" } else { "1,2,3" }});
     rep.not_covered = vec!["multi-bit corruptions other than block swaps, re-encodings and the per-block deviation combinations".into(), "witness bytes / marker / flag (not txid-covered; don't-care)".into()];
     let root = refmodel::world::scratch_root();
@@ -523,6 +536,51 @@ pub fn run() -> Report {
                     acc.count(&format!("auxpow-flip:{}", region), 1);
                     if let Some((sig, detail)) = judge_fail(&r, *height) {
                         acc.disagree(&format!("{}:auxpow-block:{}", sig, region), format!("{:?}: {}", c, detail), replay_case(&world, &spec, json!({"must": "fail", "height": height}), &r, &wk.dir));
+                    }
+                }
+                Case::Prefix { coin: cname, variant, start } => {
+                    let cn = coin(cname);
+                    let mut cb = chain_with(cn, 2, 4);
+                    if let Some(v) = cn.auxpow_from {
+                        // merged-mined blocks where the coin has them
+                        for b in cb.blocks.iter_mut().skip(2) {
+                            b.header.version = v + 1;
+                            b.auxpow = Some(refmodel::ser::AuxPow { parent_coinbase: coinbase(1, 1, vec![pay(1, 1)]), parent_hash: [7; 32], coinbase_branch: vec![[1; 32]; 2], coinbase_mask: 1, chain_branch: vec![[2; 32]], chain_mask: 0, branch_wide: 0, parent_header: cb_header() });
+                        }
+                        // the header changed: relink
+                        for i in 2..cb.blocks.len() {
+                            let prev = cb.blocks[i - 1].hash();
+                            cb.blocks[i].header.prev = prev;
+                        }
+                    }
+                    let mut world = World::new(cn);
+                    let mut ms = Vec::new();
+                    for (h, b) in cb.blocks.iter().enumerate() {
+                        let len = b.ser().len() as u32;
+                        let v = if *variant == 5 { h as u8 % 5 } else { *variant };
+                        let prefix = match v {
+                            0 => len - 1,
+                            1 => 81,
+                            2 => 0,
+                            3 => len + 1000,
+                            _ => 0xffff_ffff,
+                        };
+                        world.add_block_prefixed(0, h as u64, b, prefix);
+                        ms.push(refmodel::model::MBlock { height: h as u64, size: prefix, block: b.clone() });
+                    }
+                    let spec = RunSpec::new(cname, "csvdump").verify(true).range(*start, None);
+                    let r = match wk.world_run(&world, &spec) {
+                        Ok(r) => r,
+                        Err(m) => return acc.machinery(m),
+                    };
+                    acc.count("must-pass:length-field-differs-from-block-length", 1);
+                    let (s, e) = (r.declared_start().unwrap_or(start.unwrap_or(0)), r.declared_end().unwrap_or(3));
+                    let mut bad = check_csvdump(&r, cn, &in_range(&ms, s, e), s, e);
+                    if r.code != Some(0) && !r.panicked() {
+                        bad.insert(0, ("consistent-chain-rejected:length-field".into(), format!("exit {:?}: {}", r.code, r.stderr.lines().take(4).collect::<Vec<_>>().join(" | "))));
+                    }
+                    if let Some((sig, detail)) = bad.into_iter().next() {
+                        acc.disagree(&sig, format!("{:?}: {}", c, detail), replay_case(&world, &spec, json!({"must": "pass"}), &r, &wk.dir));
                     }
                 }
                 Case::ManyFiles => {
